@@ -114,6 +114,17 @@ theorem C03_memoryless {g : Game} (h : GameInv g) :
     | shove x => rw [allowed_shove_iff h]; simp [hna]
     | blind x => rw [allowed_blind_iff h]; simp
 
+/-- an accepted deal lies inside the deck mask of the model, the standard 52-card deck
+(`RP.Gen.handMaskStd`): no card index 52..63 is ever dealt. (The short-deck build's mask is not
+modelled; there the Rust rules machine checks that ranks 2..5 are refused.) -/
+theorem C03_draw_inside_deck {g : Game} (h : GameInv g) {c : Nat} (ha : isAllowed g (.draw c) = true) :
+    c &&& RP.Gen.handMaskStd = c ∧ c &&& deck g = c := by
+  obtain ⟨_, _, hdis, hlt, _⟩ := (allowed_draw_iff h c).1 ha
+  constructor
+  · rw [handMask_eq, Nat.and_two_pow_sub_one_eq_mod, Nat.mod_eq_of_lt hlt]
+  · unfold deck; rw [handMask_eq]
+    exact (subset_compl_iff c (inPlay g) (inPlay_lt h.cards)).2 ⟨hdis, hlt⟩
+
 /-- **C03, rejection.** A rejected action yields no state at all (the engine asserts on a clone
 before mutating: no partial update can be observed); in a reachable state an accepted action
 always yields one (the second assertion `stack >= bet` never fires). -/
@@ -319,6 +330,7 @@ example : (demo [.call 1, .check, .draw 0x700, .raise 10, .raise 30]).map
                isAllowed g .fold, isAllowed g .check, isAllowed g (.blind 1), isAllowed g (.draw 0x1000)]) =
     some [false, true, true, false, true, false, true, false, true, false, false, false] := by decide
 -- chance node: exactly the well-formed deals (three fresh cards)
+-- (the fourth candidate contains card index 52: outside the deck)
 example : (demo [.call 1, .check]).map
     (fun g => (turn g, [isAllowed g (.draw 0x700), isAllowed g (.draw 0x300), isAllowed g (.draw 0x7),
                isAllowed g (.draw (2^52 + 0x300)), isAllowed g .check, isAllowed g (.raise 2)])) =
